@@ -581,6 +581,30 @@ example : ∃ it res x w, LGMRES.solve lgPrm stdIp id 0 A₀ P₀ (LGMRES.Work.f
   · exact ⟨_, _, _, _, ‹_›, of_decide_eq_true h⟩
   · cases h
 
+/-- IDR(1) on a non-symmetric 3×3 system, with smoothing and residual replacement: three counted iterations -/
+private def A₁ : CRS ℚ := ⟨3, #[[(0, 2), (1, -1)], [(0, -1), (1, 2), (2, -1)], [(1, -1), (2, 3)]]⟩
+private def idPrm (sm rp : Bool) : IDRs.Params ℚ :=
+  { maxiter := 3, tol := 0, abstol := 0, nsSearch := false, s := 1, omega := 7/10, smoothing := sm, replacement := rp }
+private def Pv₁ : FArr (Vec ℚ) := IDRs.makeP stdIp id 1 ⟨fun _ => #[1, 0, 1]⟩
+
+example : A₁.WF ∧ A₁.nrows = A₁.ncols := by decide
+example : ∃ it res x w, IDRs.solve (idPrm false false) stdIp id 0 A₁ (fun v => vcopy v) Pv₁ (IDRs.Work.fresh 3)
+    #[1, 0, 2] #[0, 0, 0] = .ok (it, res, x, w) ∧ it = 3 := by
+  have h : (match IDRs.solve (idPrm false false) stdIp id 0 A₁ (fun v => vcopy v) Pv₁ (IDRs.Work.fresh 3)
+      #[1, 0, 2] #[0, 0, 0] with
+      | .ok (it, _, _, _) => decide (it = 3) | _ => false) = true := by decide +kernel
+  split at h
+  · exact ⟨_, _, _, _, ‹_›, of_decide_eq_true h⟩
+  · cases h
+example : ∃ it res x w, IDRs.solve (idPrm true true) stdIp id 0 A₁ (fun v => vcopy v) Pv₁ (IDRs.Work.fresh 3)
+    #[1, 0, 2] #[0, 0, 0] = .ok (it, res, x, w) ∧ it = 3 := by
+  have h : (match IDRs.solve (idPrm true true) stdIp id 0 A₁ (fun v => vcopy v) Pv₁ (IDRs.Work.fresh 3)
+      #[1, 0, 2] #[0, 0, 0] with
+      | .ok (it, _, _, _) => decide (it = 3) | _ => false) = true := by decide +kernel
+  split at h
+  · exact ⟨_, _, _, _, ‹_›, of_decide_eq_true h⟩
+  · cases h
+
 end nonvacuous2
 
 end Amgcl.C01
